@@ -458,6 +458,43 @@ def fold_source_derived(ctx, sd, what):
                 what, ("translator: " + str(sd["reason"])) if not sd["translated"] else "proofs no longer compile"))
 
 
+
+def check_omp_sharing(ctx, module, functions, theorems, observe=False):
+    """Every variable written inside an OpenMP work-sharing loop of the generated C code of this build must be private
+    (harness/omplib.py): that is the assumption under which the schedule-independence theorems speak about the code."""
+    import omplib
+    sc, rep = ctx.scratch, ctx.rep
+    c_path = os.path.join(sc.dir, "pyndl", module + ".c")
+    pyx_path = os.path.join(sc.dir, "pyndl", module + ".pyx")
+    if not (os.path.exists(c_path) and os.path.exists(pyx_path)):
+        rep.note("omp_sharing_" + module, "generated C file not found: not analysed")
+        return
+    regions = [r for r in omplib.analyse(c_path, pyx_path) if functions is None or r["function"] in functions]
+    rep.note("omp_sharing_" + module, [{k: r[k] for k in ("function", "pyx_line", "written", "shared_and_written")}
+                                       for r in regions])
+    for r in regions:
+        if not r["shared_and_written"]:
+            continue
+        names = [v.replace("__pyx_v_", "").replace("__pyx_t_", "temporary ") for v in r["shared_and_written"]]
+        detail = {"correspondence": "X-omp-sharing", "theorems": theorems, "region": r,
+                  "failing_schedule": "two threads run two iterations of the prange loop at %s.pyx:%s at the same time; "
+                  "the second thread's write to %s lands between the first thread's write and its use: the first "
+                  "thread works on the second one's part (one part trained twice, one never) - a data race on a "
+                  "variable that OpenMP shares between the threads of the region" % (module, r["pyx_line"], names)}
+        observed = None
+        if observe:
+            status, res = sc.run_worker("omp_stress_worker", {"budget_s": 12}, timeout=300,
+                                        extra_env={"OMP_WAIT_POLICY": "active"})
+            observed = res if status == "ok" else {"status": status}
+            detail["attempt_to_observe_the_race"] = observed
+        seen = bool(observed and observed.get("observed"))
+        rep.violation("the OpenMP loop of %s (%s.pyx:%s) writes %s, which the generated code shares between threads%s" % (
+            r["function"], module, r["pyx_line"], names,
+            ": observed, %d-thread result differs from the 1-thread result" % observed["n_jobs"] if seen else ""),
+            detail, no_input=not seen)
+        return
+
+
 def _big_stack():
     # extracted list functions are not tail recursive: give the driver a large stack
     import resource
